@@ -5,18 +5,22 @@ package main
 
 import (
 	"context"
+	"encoding/binary"
 	"errors"
 	"fmt"
 	"io"
 	"net"
+	"reflect"
 	"runtime"
 	"strings"
 	"sync"
 	"sync/atomic"
 	"syscall"
 	"time"
+	"unsafe"
 
 	"github.com/ovh/kmip-go"
+	"github.com/ovh/kmip-go/kmipclient"
 	"github.com/ovh/kmip-go/payloads"
 	"github.com/ovh/kmip-go/ttlv"
 )
@@ -31,6 +35,8 @@ type lcFault struct {
 	conn   int    // connection index (for 'd': dial attempt index)
 	k      int    // operation index on that connection
 	kind   string // eof | closed | reset | partial (read) ; closed | reset | short | eof (write) ; car (write: server closes after replying)
+	// write, the read side of the connection stays healthy: hreset | hclosed (the Write fails, nothing is delivered) ;
+	// late (the request is delivered, the server replies, the reader holds the response, THEN the Write reports a reset)
 	timing string // read faults: "call" (fail when the Read is invoked) | "data" (fail when the data arrives)
 	rep    int
 	fired  []int // phases in which it fired
@@ -59,7 +65,7 @@ func (f *lcFault) letter() byte {
 		return 'e' // io.EOF, closed pipe, partial message followed by EOF: all retryable for doRountrip
 	default:
 		switch f.kind {
-		case "closed", "eof":
+		case "closed", "eof", "hclosed":
 			return 'w'
 		case "car":
 			return 'e' // the client sees EOF on a later read
@@ -76,6 +82,10 @@ func lcErrFor(kind string, write bool) error {
 		return io.EOF
 	case "closed":
 		return &net.OpError{Op: "io", Net: "pipe", Err: net.ErrClosed}
+	case "hclosed":
+		return &net.OpError{Op: "write", Net: "pipe", Err: net.ErrClosed}
+	case "hreset", "late":
+		return &net.OpError{Op: "write", Net: "pipe", Err: syscall.ECONNRESET}
 	case "reset":
 		if write {
 			return &net.OpError{Op: "write", Net: "pipe", Err: syscall.ECONNRESET}
@@ -97,7 +107,35 @@ type lcNet struct {
 	faults []*lcFault
 	phase  atomic.Int32
 	srv    *lcServer
-	writes atomic.Int64 // completed or attempted client writes (one per transmitted request)
+	dir    *lcDirector
+	// transmissions are counted as REQUEST MESSAGES that the client starts to put on the wire: the byte stream
+	// the client hands to Write is cut into TTLV frames (8-byte header + padded length), whatever the number of
+	// Write calls used for one message.
+	blocked atomic.Int32  // dial attempts currently or formerly blocked by a "block" fault
+	frames atomic.Int64   // request frames started, all connections
+	txByID map[string]int // complete request frames by the identifier they carry
+	// inWrite, if set, is called when a request frame carrying that identifier is handed to Write (before any byte
+	// is passed on); the Write continues when it returns.
+	inWrite func(id string, c *lcConn)
+}
+
+func (n *lcNet) setInWrite(f func(id string, c *lcConn)) {
+	n.mu.Lock()
+	n.inWrite = f
+	n.mu.Unlock()
+}
+
+func (n *lcNet) getInWrite() func(id string, c *lcConn) {
+	n.mu.Lock()
+	defer n.mu.Unlock()
+	return n.inWrite
+}
+
+// txOf returns the number of complete request messages carrying the identifier that the client has written.
+func (n *lcNet) txOf(id string) int {
+	n.mu.Lock()
+	defer n.mu.Unlock()
+	return n.txByID[id]
 }
 
 func (n *lcNet) match(dir byte, conn, k int) *lcFault {
@@ -122,9 +160,18 @@ func (n *lcNet) dial(ctx context.Context) (net.Conn, error) {
 	idx := n.dials
 	n.dials++
 	n.mu.Unlock()
-	for _, f := range n.faults {
+	n.mu.Lock()
+	fs := append([]*lcFault(nil), n.faults...)
+	n.mu.Unlock()
+	for _, f := range fs {
 		if f.dir == 'd' && idx >= f.conn && idx <= f.conn+f.rep {
 			n.fire(f)
+			if f.kind == "block" {
+				// an unreachable peer: the dial ends only when the caller's context does
+				n.blocked.Add(1)
+				<-ctx.Done()
+				return nil, &net.OpError{Op: "dial", Net: "pipe", Err: ctx.Err()}
+			}
 			return nil, &net.OpError{Op: "dial", Net: "pipe", Err: syscall.ECONNREFUSED}
 		}
 	}
@@ -187,8 +234,78 @@ type lcConn struct {
 	reads   atomic.Int32
 	wr      atomic.Int32
 	dead    atomic.Pointer[error]
+	wdead   atomic.Pointer[error] // the write side only has failed (reads stay healthy)
 	eofNext atomic.Bool
 	car     atomic.Bool // the server must close after its next reply
+	srvGone atomic.Bool // the server has closed its end
+	cclosed atomic.Bool // the CLIENT has closed the transport
+	wmu     sync.Mutex
+	wacc    []byte // bytes handed to Write that do not yet make a whole frame
+	wopen   bool   // a frame has been started and not yet completed
+}
+
+// broken: the transport has failed (either direction) or the server has gone.
+func (c *lcConn) broken() bool {
+	return c.dead.Load() != nil || c.wdead.Load() != nil || c.srvGone.Load()
+}
+
+func (c *lcConn) Close() error {
+	c.cclosed.Store(true)
+	return c.Conn.Close()
+}
+
+// account cuts the bytes handed to Write into TTLV frames; returns the identifiers of the frames completed by p.
+func (c *lcConn) account(p []byte) (ids []string) {
+	c.wmu.Lock()
+	defer c.wmu.Unlock()
+	c.wacc = append(c.wacc, p...)
+	for len(c.wacc) > 0 {
+		if !c.wopen {
+			c.wopen = true
+			c.net.frames.Add(1)
+		}
+		if len(c.wacc) < 8 {
+			break
+		}
+		need := 8 + (int(binary.BigEndian.Uint32(c.wacc[4:8]))+7)/8*8
+		if len(c.wacc) < need {
+			break
+		}
+		id := lcRequestID(c.wacc[:need])
+		ids = append(ids, id)
+		c.net.mu.Lock()
+		if c.net.txByID == nil {
+			c.net.txByID = map[string]int{}
+		}
+		c.net.txByID[id]++
+		c.net.mu.Unlock()
+		c.wacc = append([]byte(nil), c.wacc[need:]...)
+		c.wopen = false
+	}
+	return ids
+}
+
+// lcRequestID decodes a request frame and returns the identifier it carries ("discover" for the negotiation,
+// "?" if it cannot be decoded).
+func lcRequestID(frame []byte) (id string) {
+	defer func() {
+		if recover() != nil {
+			id = "?"
+		}
+	}()
+	req := new(kmip.RequestMessage)
+	if err := ttlv.UnmarshalTTLV(frame, req); err != nil {
+		return "?"
+	}
+	for _, bi := range req.BatchItem {
+		switch pl := bi.RequestPayload.(type) {
+		case *payloads.ActivateRequestPayload:
+			return pl.UniqueIdentifier
+		case *payloads.DiscoverVersionsRequestPayload:
+			return "discover"
+		}
+	}
+	return "?"
 }
 
 func (c *lcConn) kill(err error) error {
@@ -234,8 +351,16 @@ func (c *lcConn) Read(p []byte) (int, error) {
 
 func (c *lcConn) Write(p []byte) (int, error) {
 	k := int(c.wr.Add(1)) - 1
-	c.net.writes.Add(1)
+	ids := c.account(p)
+	if cb := c.net.getInWrite(); cb != nil {
+		for _, id := range ids {
+			cb(id, c)
+		}
+	}
 	if e := c.dead.Load(); e != nil {
+		return 0, *e
+	}
+	if e := c.wdead.Load(); e != nil {
 		return 0, *e
 	}
 	f := c.net.match('w', c.idx, k)
@@ -248,6 +373,30 @@ func (c *lcConn) Write(p []byte) (int, error) {
 			n, _ := c.Conn.Write(p[:len(p)/2])
 			c.kill(io.ErrShortWrite)
 			return n, io.ErrShortWrite
+		case "hreset", "hclosed":
+			err := lcErrFor(f.kind, true)
+			c.wdead.CompareAndSwap(nil, &err)
+			return 0, err
+		case "late":
+			// deliver, let the server reply and the read loop take the reply, then report the failure
+			rx0 := 0
+			if d := c.net.dir; d != nil {
+				rx0 = d.hitCount("cli.read.beforeRx")
+			}
+			n, werr := c.Conn.Write(p)
+			if werr != nil {
+				return n, werr
+			}
+			if d := c.net.dir; d != nil {
+				dl := time.Now().Add(lcWaitEvent)
+				for d.hitCount("cli.read.beforeRx") == rx0 && time.Now().Before(dl) {
+					time.Sleep(20 * time.Microsecond)
+				}
+			}
+			time.Sleep(lcPause) // the read loop goes from the yield point into its hand-off
+			err := lcErrFor(f.kind, true)
+			c.wdead.CompareAndSwap(nil, &err)
+			return 0, err
 		default:
 			return 0, c.kill(lcErrFor(f.kind, true))
 		}
@@ -339,9 +488,18 @@ func (s *lcServer) connOf(id string) int {
 	return c
 }
 
+// serve reads the requests of one connection. A reply that is gated is sent, once its gate opens, by a goroutine
+// of its own while the following requests are read and answered: the server may answer out of order, which a
+// client that keeps one exchange in flight per connection cannot tell from a sequential server.
 func (s *lcServer) serve(lc *lcConn, c net.Conn) {
 	defer s.wg.Done()
-	defer c.Close()
+	var sendMu sync.Mutex
+	var pending sync.WaitGroup
+	defer func() {
+		lc.srvGone.Store(true)
+		_ = c.Close()
+		pending.Wait()
+	}()
 	st := ttlv.NewStream(c, -1)
 	for {
 		req := new(kmip.RequestMessage)
@@ -378,9 +536,20 @@ func (s *lcServer) serve(lc *lcConn, c net.Conn) {
 			continue
 		}
 		if g != nil {
-			<-g
+			pending.Add(1)
+			go func() {
+				defer pending.Done()
+				<-g
+				sendMu.Lock()
+				_ = st.Send(resp)
+				sendMu.Unlock()
+			}()
+			continue
 		}
-		if err := st.Send(resp); err != nil {
+		sendMu.Lock()
+		err := st.Send(resp)
+		sendMu.Unlock()
+		if err != nil {
 			return
 		}
 		if lc.car.Load() {
@@ -402,6 +571,8 @@ type lcDirector struct {
 	mu    sync.Mutex
 	hits  map[string]int
 	rules []*lcRule
+	every map[string][]func(obj any)
+	last  map[string]any
 	log   []string
 }
 
@@ -424,13 +595,34 @@ func lcYield(point string, obj any) {
 			fn = r.fn
 		}
 	}
+	d.last[point] = obj
+	obs := d.every[point]
 	d.mu.Unlock()
+	for _, o := range obs {
+		o(obj)
+	}
 	if fn != nil {
 		fn()
 	}
 }
 
-func newLcDirector() *lcDirector { return &lcDirector{hits: map[string]int{}} }
+func newLcDirector() *lcDirector {
+	return &lcDirector{hits: map[string]int{}, every: map[string][]func(any){}, last: map[string]any{}}
+}
+
+// onEvery registers an observer called at every hit of the point.
+func (d *lcDirector) onEvery(point string, fn func(obj any)) {
+	d.mu.Lock()
+	d.every[point] = append(d.every[point], fn)
+	d.mu.Unlock()
+}
+
+// lastObj returns the object passed at the most recent hit of the point.
+func (d *lcDirector) lastObj(point string) any {
+	d.mu.Lock()
+	defer d.mu.Unlock()
+	return d.last[point]
+}
 
 func (d *lcDirector) on(point string, hit int, fn func()) {
 	d.mu.Lock()
@@ -447,7 +639,12 @@ func (d *lcDirector) hitCount(point string) int {
 // ---------------------------------------------------------------------------------------------
 // goroutines of the client
 
-// lcClientGoroutines counts the goroutines that have a kmipclient frame on their stack.
+// lcClientPkg is the import path of the package under test, as it appears in goroutine dumps.
+var lcClientPkg = reflect.TypeOf(kmipclient.Client{}).PkgPath()
+
+// lcClientGoroutines counts the goroutines STARTED BY the kmipclient package ("created by <pkg>.<func>" in the
+// goroutine dump), whatever the functions they run are called. Calls into the client made by harness goroutines are
+// not counted. Positive control: while a connection is open the count must be > 0 (checked in warm()).
 func lcClientGoroutines() int {
 	buf := make([]byte, 1<<20)
 	for {
@@ -460,7 +657,7 @@ func lcClientGoroutines() int {
 	}
 	cnt := 0
 	for _, g := range strings.Split(string(buf), "\n\n") {
-		if strings.Contains(g, "kmipclient.(*conn).readloop") || strings.Contains(g, "kmipclient.(*conn).writeloop") {
+		if strings.Contains(g, "created by "+lcClientPkg+".") {
 			cnt++
 		}
 	}
@@ -476,4 +673,136 @@ func lcSettle(base int, timeout time.Duration) int {
 		n = lcClientGoroutines()
 	}
 	return n
+}
+
+// lcGoroutineDump returns the stacks of the goroutines started by the kmipclient package (for violation details).
+func lcGoroutineDump() string {
+	buf := make([]byte, 1<<20)
+	buf = buf[:runtime.Stack(buf, true)]
+	var out []string
+	for _, g := range strings.Split(string(buf), "\n\n") {
+		if strings.Contains(g, "created by "+lcClientPkg+".") {
+			lines := strings.Split(g, "\n")
+			if len(lines) > 3 {
+				lines = lines[:3]
+			}
+			out = append(out, strings.Join(lines, " | "))
+		}
+	}
+	return strings.Join(out, " || ")
+}
+
+// ---------------------------------------------------------------------------------------------
+// time scale: every wait of the harness is a multiple of the duration of one fault-free exchange measured on this
+// machine in this process (lcCalibrate), with a floor; nothing is tuned to a particular machine.
+
+var (
+	lcPause     = 200 * time.Microsecond // lets a goroutine that has been released take its next step
+	lcWaitEvent = 2 * time.Second         // upper bound for an event that is expected to happen
+	lcCallLimit = 5 * time.Second         // a call that has not returned by then hangs
+)
+
+func lcCalibrate(exchange time.Duration) {
+	if exchange <= 0 {
+		return
+	}
+	lcPause = max(200*time.Microsecond, 4*exchange)
+	lcWaitEvent = max(2*time.Second, 2000*exchange)
+	lcCallLimit = max(5*time.Second, 5000*exchange)
+}
+
+// ---------------------------------------------------------------------------------------------
+// a caller context under the director's control: it ends when fire is called, with the given error
+// (context.Canceled or context.DeadlineExceeded), as a cancelled or an expired context does.
+
+type lcCallerCtx struct {
+	mu   sync.Mutex
+	done chan struct{}
+	err  error
+	dl   bool
+}
+
+func newLcCallerCtx(deadline bool) *lcCallerCtx {
+	return &lcCallerCtx{done: make(chan struct{}), dl: deadline}
+}
+
+func (c *lcCallerCtx) Deadline() (time.Time, bool) {
+	if c.dl {
+		return time.Now().Add(time.Hour), true
+	}
+	return time.Time{}, false
+}
+func (c *lcCallerCtx) Done() <-chan struct{} { return c.done }
+func (c *lcCallerCtx) Err() error {
+	c.mu.Lock()
+	defer c.mu.Unlock()
+	return c.err
+}
+func (c *lcCallerCtx) Value(any) any { return nil }
+
+// fire ends the context (idempotent).
+func (c *lcCallerCtx) fire() {
+	c.mu.Lock()
+	defer c.mu.Unlock()
+	if c.err != nil {
+		return
+	}
+	if c.dl {
+		c.err = context.DeadlineExceeded
+	} else {
+		c.err = context.Canceled
+	}
+	close(c.done)
+}
+
+// ---------------------------------------------------------------------------------------------
+// the connection context, for widening a window of the schedule: the object passed to the yield points is the
+// *conn; its field of type context.Context (found by type, not by name) is the teardown signal. Calling Err() on a
+// context has no effect on the client; on the Go versions where cancelCtx.Err takes the context's mutex, doing it
+// from several goroutines delays a concurrent cancel() of that context. That is all lcHammer does.
+
+func lcConnCtx(obj any) context.Context {
+	v := reflect.ValueOf(obj)
+	if v.Kind() != reflect.Pointer || v.IsNil() || v.Elem().Kind() != reflect.Struct {
+		return nil
+	}
+	s := v.Elem()
+	ctxT := reflect.TypeOf((*context.Context)(nil)).Elem()
+	for i := 0; i < s.NumField(); i++ {
+		f := s.Field(i)
+		if f.Type() == ctxT && f.CanAddr() {
+			if c, ok := reflect.NewAt(f.Type(), unsafe.Pointer(f.UnsafeAddr())).Elem().Interface().(context.Context); ok && c != nil {
+				return c
+			}
+		}
+	}
+	return nil
+}
+
+// lcHammer starts n goroutines polling cctx.Err() until stop is closed (or the time limit); returns when they run.
+func lcHammer(cctx context.Context, n int, stop <-chan struct{}, limit time.Duration) {
+	var started sync.WaitGroup
+	deadline := time.Now().Add(limit)
+	for i := 0; i < n; i++ {
+		started.Add(1)
+		go func() {
+			started.Done()
+			for k := 0; ; k++ {
+				if cctx.Err() != nil {
+					return
+				}
+				if k&1023 == 0 {
+					select {
+					case <-stop:
+						return
+					default:
+					}
+					if time.Now().After(deadline) {
+						return
+					}
+				}
+			}
+		}()
+	}
+	started.Wait()
 }
